@@ -217,3 +217,216 @@ Proof.
 Qed.
 
 End Reader.
+
+(** ** pool lookup = the served entry *)
+
+Lemma find_pool_spec : forall db ps p, find_pool db ps = Some p ->
+  exists ps1 ps2, ps = ps1 ++ p :: ps2 /\ p_name p = db /\ (forall q, In q ps1 -> p_name q <> db).
+Proof.
+  induction ps as [|q r IH]; intros p H; [discriminate|]. cbn [find_pool] in H.
+  destruct (bytes_eqb db (p_name q)) eqn:E.
+  - inversion H; subst. apply bytes_eqb_eq in E. exists [], r. repeat split; auto; try (intros ? []).
+  - apply IH in H. destruct H as (ps1 & ps2 & H1 & H2 & H3). exists (q :: ps1), ps2. subst r. repeat split; auto.
+    intros q' [Hq|Hq]; [subst q'; apply bytes_eqb_neq in E; congruence|auto].
+Qed.
+
+Lemma find_user_spec : forall name us u, find_user name us = Some u ->
+  exists us1 us2, us = us1 ++ u :: us2 /\ u_name u = name /\ (forall v, In v us2 -> u_name v <> name).
+Proof.
+  induction us as [|v r IH]; intros u H; [discriminate|]. cbn [find_user] in H.
+  destruct (find_user name r) as [x|] eqn:Er.
+  - inversion H; subst x. destruct (IH u eq_refl) as (us1 & us2 & H1 & H2 & H3).
+    exists (v :: us1), us2. subst r. repeat split; auto.
+  - destruct (bytes_eqb name (u_name v)) eqn:E; [|discriminate]. inversion H; subst v.
+    apply bytes_eqb_eq in E. exists [], r. repeat split; auto.
+    intros w Hw Hn.
+    assert (Hf : forall l, In w l -> find_user name l <> None).
+    { induction l as [|z l IHl]; intros Hin; [destruct Hin|]. cbn [find_user].
+      destruct Hin as [Hin|Hin].
+      - subst z. destruct (find_user name l); [discriminate|]. rewrite <- Hn, bytes_eqb_refl. discriminate.
+      - specialize (IHl Hin). destruct (find_user name l); [discriminate|contradiction]. }
+    exact (Hf r Hw Er).
+Qed.
+
+Lemma find_user_none : forall name us, find_user name us = None -> forall v, In v us -> u_name v <> name.
+Proof.
+  induction us as [|z l IH]; intros H v Hin; [destruct Hin|]. cbn [find_user] in H.
+  destruct (find_user name l) eqn:E; [discriminate|].
+  destruct (bytes_eqb name (u_name z)) eqn:Eb; [discriminate|].
+  destruct Hin as [Hin|Hin]; [subst z; apply bytes_eqb_neq in Eb; congruence|auto].
+Qed.
+
+Lemma find_pool_none : forall db ps, find_pool db ps = None -> forall q, In q ps -> p_name q <> db.
+Proof.
+  induction ps as [|z l IH]; intros H q Hin; [destruct Hin|]. cbn [find_pool] in H.
+  destruct (bytes_eqb db (p_name z)) eqn:Eb; [discriminate|].
+  destruct Hin as [Hin|Hin]; [subst z; apply bytes_eqb_neq in Eb; congruence|auto].
+Qed.
+
+Lemma get_pool_served : forall c db name p u, get_pool c db name = Some (p, u) -> served c db name p u.
+Proof.
+  intros c db name p u H. unfold get_pool in H.
+  destruct (find_pool db (pools c)) as [p'|] eqn:Ep; [|discriminate].
+  destruct (find_user name (p_users p')) as [u'|] eqn:Eu; [|discriminate].
+  inversion H; subst p' u'.
+  destruct (find_pool_spec _ _ _ Ep) as (ps1 & ps2 & A1 & A2 & A3).
+  destruct (find_user_spec _ _ _ Eu) as (us1 & us2 & B1 & B2 & B3).
+  exists ps1, ps2, us1, us2. repeat split; assumption.
+Qed.
+
+(** the converse: the served entry is what the lookup returns *)
+Lemma find_pool_complete : forall db ps1 p ps2, p_name p = db -> (forall q, In q ps1 -> p_name q <> db) ->
+  find_pool db (ps1 ++ p :: ps2) = Some p.
+Proof.
+  induction ps1 as [|q r IH]; intros p ps2 Hp Hn; cbn [app find_pool].
+  - rewrite <- Hp, bytes_eqb_refl. reflexivity.
+  - destruct (bytes_eqb db (p_name q)) eqn:E.
+    + apply bytes_eqb_eq in E. exfalso. apply (Hn q); [left; reflexivity|congruence].
+    + apply IH; auto. intros q' Hq. apply Hn. right. exact Hq.
+Qed.
+
+Lemma find_user_complete : forall name us1 u us2, u_name u = name -> (forall v, In v us2 -> u_name v <> name) ->
+  find_user name (us1 ++ u :: us2) = Some u.
+Proof.
+  intros name us1 u us2 Hu Hn.
+  assert (Htail : find_user name us2 = None).
+  { clear - Hn. induction us2 as [|z l IH]; [reflexivity|]. cbn [find_user].
+    rewrite IH by (intros v Hv; apply Hn; right; exact Hv).
+    destruct (bytes_eqb name (u_name z)) eqn:E; [|reflexivity].
+    apply bytes_eqb_eq in E. exfalso. apply (Hn z); [left; reflexivity|congruence]. }
+  induction us1 as [|q r IH]; cbn [app find_user].
+  - rewrite Htail, <- Hu, bytes_eqb_refl. reflexivity.
+  - rewrite IH. reflexivity.
+Qed.
+
+Lemma served_get_pool : forall c db name p u, served c db name p u -> get_pool c db name = Some (p, u).
+Proof.
+  intros c db name p u (ps1 & ps2 & us1 & us2 & A1 & A2 & A3 & B1 & B2 & B3).
+  unfold get_pool. rewrite A1, (find_pool_complete db ps1 p ps2 A2 A3), B1, (find_user_complete name us1 u us2 B2 B3).
+  reflexivity.
+Qed.
+
+Lemma served_configured : forall c db name p u, served c db name p u -> configured c db name.
+Proof.
+  intros c db name p u (ps1 & ps2 & us1 & us2 & A1 & A2 & A3 & B1 & B2 & B3).
+  exists p, u. rewrite A1, B1. repeat split; auto; apply in_or_app; right; left; reflexivity.
+Qed.
+
+Lemma not_configured_no_pool : forall c db name, ~ configured c db name -> get_pool c db name = None.
+Proof.
+  intros c db name H. destruct (get_pool c db name) as [[p u]|] eqn:E; [|reflexivity].
+  exfalso. apply H. eapply served_configured. apply get_pool_served. exact E.
+Qed.
+
+Lemma served_unique : forall c db name p u p' u', served c db name p u -> served c db name p' u' -> p = p' /\ u = u'.
+Proof.
+  intros c db name p u p' u' H H'. apply served_get_pool in H. apply served_get_pool in H'.
+  rewrite H in H'. inversion H'. auto.
+Qed.
+
+(** ** Client::startup *)
+
+Section Main.
+Variable md5 : bytes -> bytes.
+Variable chk : bool.
+
+(** the answer the client gave is the MD5 answer for a secret pgcat holds for this user *)
+Definition valid_body (e : auth_env) (p : pool) (u : user) (name salt body : bytes) : Prop :=
+  (exists pw, u_password u = Some pw /\ body = md5_hash_password md5 name pw salt) \/
+  (exists h, u_password u = None /\ cached e = Some h /\ body = md5_hash_second_pass md5 h salt) \/
+  (exists h, p_aq p = true /\ In (Some h) (fetches e) /\ body = md5_hash_second_pass md5 h salt).
+
+(** pooler-originated server contacts of one startup *)
+Definition evs_ok (p : pool) (db name : bytes) (ev : list event) : Prop :=
+  Forall (fun x => x = EvAuthQuery db name) ev /\ (ev <> [] -> p_aq p = true).
+
+Lemma finish_user_cases : forall e db name pre ev c,
+  let r := finish_user e db name pre ev c in
+  cache' r = c /\
+  (events r = ev \/ events r = ev ++ [EvValidate db name]) /\
+  ((out r = Admitted db name /\ replies r = pre ++ auth_tail) \/
+   (out r = Rejected WPoolDown /\ replies r = pre ++ [RError (EPoolDown db name); RReadyForQuery] /\
+    validated e = false /\ validate_ok e = false)).
+Proof.
+  intros. subst r. unfold finish_user.
+  destruct (validated e); [cbn; auto|]. destruct (validate_ok e); cbn; auto 10.
+Qed.
+
+Lemma evs_ok_nil : forall p db name, evs_ok p db name [].
+Proof. intros. split; [constructor|intro H; contradiction]. Qed.
+
+Lemma evs_ok_one : forall p db name, p_aq p = true -> evs_ok p db name [EvAuthQuery db name].
+Proof. intros. split; [repeat constructor|auto]. Qed.
+
+Lemma evs_ok_two : forall p db name, p_aq p = true -> evs_ok p db name ([EvAuthQuery db name] ++ [EvAuthQuery db name]).
+Proof. intros. split; [repeat constructor|auto]. Qed.
+
+Ltac refused w lem :=
+  right; left; exists w; cbn; repeat split; try discriminate; auto 8 using lem;
+  try (intros; discriminate);
+  try (match goal with H : PwOk _ _ = PwOk _ _ |- _ => inversion H; subst end; auto 8).
+
+(** every way [user_md5] can end *)
+Lemma user_md5_cases : forall c e p u db name salt rest,
+  let r := user_md5 md5 chk c e p u db name salt rest in
+  (exists body tail ev c', read_password chk rest = PwOk body tail /\ valid_body e p u name salt body /\
+      evs_ok p db name ev /\ r = finish_user e db name [RMd5Request salt] ev c') \/
+  (exists w, out r = Rejected w /\ w <> WPoolDown /\ w <> WShuttingDown /\
+      (replies r = [RMd5Request salt] \/ replies r = [RMd5Request salt; RError (EWrongPassword name)]) /\
+      evs_ok p db name (events r) /\
+      (forall body tail, read_password chk rest = PwOk body tail ->
+         replies r = [RMd5Request salt; RError (EWrongPassword name)] /\
+         (w = WInvalidPassword \/ w = WRefetchFailed \/ w = WPassthrough \/ w = WAuthImpossible))) \/
+  (out r = TaskPanic /\ replies r = [RMd5Request salt] /\ events r = [] /\ read_password chk rest = PwPanic).
+Proof.
+  intros c e p u db name salt rest r. subst r. unfold user_md5.
+  destruct (read_password chk rest) as [body tail|st|code|] eqn:Er.
+  2:{ refused (WSocket st) evs_ok_nil. }
+  2:{ refused (WExpectedP code) evs_ok_nil. }
+  2:{ right; right. cbn. auto. }
+  destruct (u_password u) as [pw|] eqn:Ep.
+  - destruct (bytes_eqb (md5_hash_password md5 name pw salt) body) eqn:Eb.
+    + apply bytes_eqb_eq in Eb. left. exists body, tail, [], (cached e). repeat split; auto using evs_ok_nil.
+      left. exists pw. auto.
+    + unfold refetch. destruct (p_aq p) eqn:Eaq.
+      * unfold next_fetch. destruct (fetches e) as [|[h|] fs] eqn:Ef; cbn [fst snd].
+        -- refused (WRefetchFailed) evs_ok_one.
+        -- destruct (bytes_eqb (md5_hash_second_pass md5 h salt) body) eqn:Eh.
+           ++ apply bytes_eqb_eq in Eh. left. exists body, tail, [EvAuthQuery db name], (Some h).
+              repeat split; auto using evs_ok_one. right; right. exists h. rewrite Ef. repeat split; auto. left; reflexivity.
+           ++ refused (WInvalidPassword) evs_ok_one.
+        -- refused (WRefetchFailed) evs_ok_one.
+      * refused (WRefetchFailed) evs_ok_nil.
+  - destruct (cfg_aq c) eqn:Ecq; cbn [negb].
+    2:{ refused (WAuthImpossible) evs_ok_nil. }
+    destruct (cached e) as [h0|] eqn:Ec.
+    + destruct (bytes_eqb (md5_hash_second_pass md5 h0 salt) body) eqn:Eh0.
+      * apply bytes_eqb_eq in Eh0. left. exists body, tail, [], (Some h0). repeat split; auto using evs_ok_nil.
+        right; left. exists h0. auto.
+      * unfold refetch. destruct (p_aq p) eqn:Eaq.
+        -- unfold next_fetch. destruct (fetches e) as [|[h|] fs] eqn:Ef; cbn [fst snd app].
+           ++ refused (WRefetchFailed) evs_ok_one.
+           ++ destruct (bytes_eqb (md5_hash_second_pass md5 h salt) body) eqn:Eh.
+              ** apply bytes_eqb_eq in Eh. left. exists body, tail, [EvAuthQuery db name], (Some h).
+                 repeat split; auto using evs_ok_one. right; right. exists h. rewrite Ef. repeat split; auto. left; reflexivity.
+              ** refused (WInvalidPassword) evs_ok_one.
+           ++ refused (WRefetchFailed) evs_ok_one.
+        -- refused (WRefetchFailed) evs_ok_nil.
+    + unfold refetch. destruct (p_aq p) eqn:Eaq.
+      * unfold next_fetch. destruct (fetches e) as [|[h|] fs] eqn:Ef; cbn [fst snd app].
+        -- refused (WPassthrough) evs_ok_one.
+        -- destruct (bytes_eqb (md5_hash_second_pass md5 h salt) body) eqn:Eh.
+           ++ apply bytes_eqb_eq in Eh. left. exists body, tail, [EvAuthQuery db name], (Some h).
+              repeat split; auto using evs_ok_one. right; right. exists h. repeat split; auto. left; reflexivity.
+           ++ destruct fs as [|[h2|] fs2]; cbn [fst snd app].
+              ** refused (WRefetchFailed) evs_ok_two.
+              ** destruct (bytes_eqb (md5_hash_second_pass md5 h2 salt) body) eqn:Eh2.
+                 --- apply bytes_eqb_eq in Eh2. left. exists body, tail, ([EvAuthQuery db name] ++ [EvAuthQuery db name]), (Some h2).
+                     repeat split; auto using evs_ok_two. right; right. exists h2. repeat split; auto. right; left; reflexivity.
+                 --- refused (WInvalidPassword) evs_ok_two.
+              ** refused (WRefetchFailed) evs_ok_two.
+        -- refused (WPassthrough) evs_ok_one.
+      * refused (WPassthrough) evs_ok_nil.
+Qed.
+
+End Main.
